@@ -16,8 +16,8 @@ open Rmk.ChunkTreeLemmas Rmk.ReprBasics
     For packed sequences / bitfields / byte arrays the element is returned too (as a `uintN` /
     `boolean` / `uint8` value); the tree node at the index is then the chunk holding it, see
     `unpackedKey` and `packed_addresses`.
-    (`ByteList` has no `'__len__'` key in the library — `navigate_type` / `key_to_static_gindex`
-    reject it, and so does the SSZ `get_generalized_index` — hence none here either.) -/
+    (`ByteList` has a `'__len__'` key exactly like `Bitlist` / `List`: `navigate_type` /
+    `key_to_static_gindex` accept it and address the length mix-in leaf, gindex 3.) -/
 def subVal : Ty → Val → Key → Option (Option Ty × Val)
   | .list et _, .seq vs, .idx i => (vs[i]?).map fun x => (some et, x)
   | .list _ _, .seq vs, .len => some (some (.uint 32), .num vs.length)
@@ -30,6 +30,7 @@ def subVal : Ty → Val → Key → Option (Option Ty × Val)
   | .bitlist _, .bits bs, .len => some (some (.uint 32), .num bs.length)
   | .bitvector _, .bits bs, .idx i => (bs[i]?).map fun b => (some .bool, .num (if b then 1 else 0))
   | .bytelist _, .bytes bs, .idx i => (bs[i]?).map fun b => (some (.uint 1), .num b.toNat)
+  | .bytelist _, .bytes bs, .len => some (some (.uint 32), .num bs.length)
   | .bytevector _, .bytes bs, .idx i => (bs[i]?).map fun b => (some (.uint 1), .num b.toNat)
   | .union hasNone opts, .un sel x, .idx i =>
     if i = sel then some (optType hasNone opts sel, x) else none
@@ -189,7 +190,11 @@ theorem step_addresses_core (H : Hash) (t : Ty) (v : Val) (n : Node) (k : Key) (
     cases k with
     | idx i => simp [unpackedKey] at hu
     | sel => simp [subVal] at hs
-    | len => simp [subVal] at hs
+    | len =>
+      simp [subVal] at hs; obtain ⟨rfl, rfl⟩ := hs
+      simp [keyToStaticGindex] at hg; subst hg
+      have := hlen rfl; simp [limitsOk] at this
+      exact ⟨_, getter_three _ _, repr_lenNode H _ (by omega)⟩
   | vector et len =>
     cases v <;> try (cases k <;> simp [subVal] at hs; done)
     rename_i vs
@@ -344,6 +349,8 @@ theorem len_sel_addresses (H : Hash) (t : Ty) (v : Val) (n : Node) (k : Key) (x 
       exact ⟨rfl, getter_three _ _⟩
     · obtain ⟨_, c, rfl, _⟩ := hr
       exact ⟨rfl, getter_three _ _⟩
+    · obtain ⟨_, c, rfl, _⟩ := hr
+      exact ⟨rfl, getter_three _ _⟩
   · cases t <;> cases v <;> simp [subVal] at hs
     subst hs
     simp only [Impl.Repr] at hr
@@ -424,10 +431,12 @@ theorem subVal_navigateType (t : Ty) (v : Val) (k : Key) (ot' : Option Ty) (v' :
       rw [← hs.1]; rfl
   | bytelist lim =>
     cases v <;> cases k <;> simp only [subVal, reduceCtorEq] at hs
-    obtain ⟨hi, he⟩ := map_getElem?_eq_some hs
-    simp [WT] at hwt
-    simp only [Prod.mk.injEq] at he
-    simp only [navigateType]; rw [if_neg (by omega), he.1]
+    · obtain ⟨hi, he⟩ := map_getElem?_eq_some hs
+      simp [WT] at hwt
+      simp only [Prod.mk.injEq] at he
+      simp only [navigateType]; rw [if_neg (by omega), he.1]
+    · simp only [Option.some.injEq, Prod.mk.injEq] at hs
+      rw [← hs.1]; rfl
   | vector et len =>
     cases v <;> cases k <;> simp only [subVal, reduceCtorEq] at hs
     obtain ⟨hi, he⟩ := map_getElem?_eq_some hs
@@ -494,7 +503,8 @@ theorem navigateType_limitsOk (t : Ty) (k : Key) (t' : Ty) (hlim : limitsOk t = 
     obtain ⟨_, rfl⟩ := h; rfl
   | bytelist lim =>
     cases k <;> simp [navigateType] at h
-    obtain ⟨_, rfl⟩ := h; rfl
+    · obtain ⟨_, rfl⟩ := h; rfl
+    · subst h; rfl
   | vector et n =>
     simp only [limitsOk] at hlim
     cases k <;> simp [navigateType] at h
